@@ -29,6 +29,9 @@ PrefixVerdict(mode, exp, obs) ==
   ELSE IF Len(obs) > Len(exp) \/ \E j \in 1..Len(obs) : ~SameRow(exp[j], obs[j]) THEN "rows.order"
   ELSE "ok"
 
+\* rows with every object index moved down by d (twin worlds live in one heap)
+OffRows(rows, d) == [j \in 1..Len(rows) |-> [k \in 1..Len(rows[j]) |->
+                       IF rows[j][k].t = "obj" THEN ObjV(rows[j][k].v - d) ELSE rows[j][k]]]
 SameRowSet(a, b) == (\A j \in 1..Len(a) : HasRow(b, a[j])) /\ (\A j \in 1..Len(b) : HasRow(a, b[j]))
 
 SameInst(x, y) == x.cls = y.cls /\ SameRow(x.f, y.f)
@@ -50,7 +53,8 @@ EvVerdict(t, j) ==
             IF ev.exc # "none" THEN "exception"
             ELSE LET v == RowsVerdict(CompareMode(q), RowSeq(q, W), ev.rows)
                  IN IF v # "ok" THEN v
-                    ELSE IF ev.eqto > 0 /\ ~SameRowSet(ev.rows, t.evs[ev.eqto].rows) THEN "rows.differs-from-twin"
+                    ELSE IF ev.eqto > 0 /\ ~SameRowSet(OffRows(ev.rows, ev.eqoff), t.evs[ev.eqto].rows)
+                         THEN "rows.differs-from-twin"
                     ELSE "ok"
        [] ev.op = "partial" ->
             IF ev.exc # "none" THEN "exception"
